@@ -132,7 +132,7 @@ def sel_pred(sel_ids: list, shape, names: Names, rng: random.Random, model=None)
     return P[tuple(ns)]
 
 
-def build_overlay(ov: dict, shape, names: Names, rng: random.Random, model, helpers: dict):
+def build_overlay(ov: dict, shape, names: Names, rng: random.Random, model, helpers: dict, bind=None):
     from adaptix import ExtraForbid, ExtraKwargs, ExtraSkip, NameStyle, name_mapping
     kw: dict = {}
     if ov["map"]["o"]:
@@ -180,6 +180,8 @@ def build_overlay(ov: dict, shape, names: Names, rng: random.Random, model, help
         x = ov["extra_out"]["v"]
         kw["extra_out"] = {"skip": ExtraSkip(), "target": names.field(shape[x["f"] - 1]["id"]) if x["p"] == "target" else None,
                            "extract": helpers["extractor"]}[x["p"]]
+    if bind is not None:
+        return name_mapping(bind, **kw)
     if rng.random() < 0.4:
         return name_mapping(model, **kw)
     return name_mapping(**kw)
@@ -432,6 +434,74 @@ def run_program(case: dict, seed: int, names: Names, out: dict, kind_factory=Non
                         {"omit": any(ov["omit"]["o"] for ov in case["ovs"])}, dt=dtname)
 
 
+def run_twin(c1: dict, c2: dict, seed: int, names: Names, out: dict) -> None:
+    """the same model class at two locations of one outer model, each location with its own recipe: every location must
+    behave as its own program (location-dependent name_mapping, and no cross-talk through the retort's caches)"""
+    from adaptix import DebugTrail, P, Retort
+    from adaptix.load_error import LoadError
+    shape = c1["shape"]
+    rng = random.Random(f"twin{seed}:{stable_hash([c1['ovs'], c2['ovs']])}")
+    model = make_dataclass_model(shape, names)
+    outer = dataclasses.make_dataclass("Outer", [("p", model), ("q", model)])
+    helpers = {"saturator": lambda m, extra: setattr(m, "_sat", extra), "extractor": lambda m: {"unk1": "x1"}}
+    order = [("p", c1), ("q", c2)]
+    if rng.random() < 0.5:
+        order.reverse()
+    recipe = []
+    for loc, c in order:
+        recipe += [build_overlay(ov, shape, names, rng, model, helpers, bind=getattr(P[outer], loc)) for ov in c["ovs"]]
+    try:
+        base = Retort(recipe=recipe)
+        loaders = {dt.name: base.replace(debug_trail=dt).get_loader(outer) for dt in (DebugTrail.ALL, DebugTrail.DISABLE)}
+    except Exception as e:  # noqa: BLE001
+        out["C03"].append({"sig": {"what": "twin_creation_raises"}, "detail": f"{type(e).__name__}: {str(e)[:200]}", "size": 10 ** 6,
+                           "case": {"shape": shape, "ovs": [c1["ovs"], c2["ovs"]]}})
+        return
+    base1 = next(p for p in c1["probes"] if p["out"]["ok"])
+    base2 = next(p for p in c2["probes"] if p["out"]["ok"])
+    pairs = [(p, base2) for p in c1["probes"]] + [(base1, p) for p in c2["probes"]]
+    for p1, p2 in pairs:
+        datum = {"p": render_data(p1["d"], shape, names), "q": render_data(p2["d"], shape, names)}
+        for dtname, loader in loaders.items():
+            out["runs"] += 1
+            try:
+                res = ("ok", loader(datum))
+            except BaseException as e:  # noqa: BLE001
+                res = ("err", e)
+            both_ok = p1["out"]["ok"] and p2["out"]["ok"]
+
+            def add(what, detail):
+                out["C03"].append({"sig": {"what": what, "twin": True}, "detail": detail, "size": 10 ** 5 + len(json.dumps([c1["ovs"], c2["ovs"]])),
+                                   "case": {"shape": shape, "ovs_p": c1["ovs"], "ovs_q": c2["ovs"]}, "py_datum": repr(datum)[:300], "dt": dtname})
+            if both_ok:
+                if res[0] == "err":
+                    add("twin_rejects_conforming_input", f"{dtname}: {datum!r} raised {type(res[1]).__name__}: {str(res[1])[:120]}")
+                    continue
+                for loc, pr in (("p", p1), ("q", p2)):
+                    obj = getattr(res[1], loc)
+                    for i, f in enumerate(shape, start=1):
+                        want = pr["out"]["obj"][i - 1]
+                        if want["a"] == "extras":
+                            continue
+                        exp = render_data(want, shape, names)
+                        got = getattr(obj, names.field(f["id"]))
+                        if got != exp:
+                            add("twin_field_value", f"{dtname}: {loc}.{names.field(f['id'])} = {got!r}, documented {exp!r} for {datum!r}")
+            else:
+                if res[0] == "ok":
+                    add("twin_accepts_input_violating_layout", f"{dtname}: {datum!r} loaded to {res[1]!r}")
+                    continue
+                if dtname == "ALL" and isinstance(res[1], LoadError):
+                    flat = flat_model_errors(res[1])
+                    want = set()
+                    for loc, pr in (("p", p1), ("q", p2)):
+                        want |= {((loc,) + t, k, ks) for t, k, ks in model_errs(pr["out"]["errs"], names)}
+                    if [r for r in flat if not any(err_matches(r, m) for m in want)] or [m for m in want if not any(err_matches(r, m) for r in flat)]:
+                        out["C05"].append({"sig": {"what": "twin_errors_not_exact_in_ALL", "twin": True},
+                                           "detail": f"ALL: reported {sorted(map(str, flat))}; documented {sorted(map(str, want))} for {datum!r}",
+                                           "size": 10 ** 5, "case": {"shape": shape, "ovs_p": c1["ovs"], "ovs_q": c2["ovs"]}})
+
+
 def _shape_of(x: Any) -> Any:
     if isinstance(x, dict):
         return ("dict", tuple(sorted((repr(k), _shape_of(v)) for k, v in x.items())))
@@ -462,13 +532,21 @@ def _min_per_sig(fs: list) -> list:
 def _worker(items) -> dict:
     out: dict = {"programs": 0, "runs": 0, "machinery": [], "samples": [], **{c: [] for c in CATS}}
     names = Names()
+    out["twins"] = 0
     for seed, path, spans in items:
+        prev = None
         with open(path, "rb") as f:
             for off, ln in spans:
                 f.seek(off)
                 case = json.loads(json.loads(f.read(ln).decode("utf-8")))
                 try:
                     run_program(case, seed, names, out)
+                    twinable = case["created_in"] and case["sch"]["extra_in"]["p"] not in ("kwargs", "target") and len(case["shape"]) == 3
+                    if twinable and prev is not None and prev["shape"] == case["shape"] and prev["ovs"] != case["ovs"]:
+                        run_twin(prev, case, seed, names, out)
+                        out["twins"] += 1
+                    if twinable:
+                        prev = case
                 except Exception:  # noqa: BLE001
                     out["machinery"].append(f"harness error on program {json.dumps(case['ovs'])[:300]}: {traceback.format_exc()[-900:]}")
                 if not out["samples"] and case["created_in"] and len(case["probes"]) > 8:
@@ -481,7 +559,7 @@ def _worker(items) -> dict:
 
 
 def run_slices(ctx: Ctx, slices, max_overlays: dict) -> dict:
-    total: dict = {"programs": 0, "runs": 0, **{c: [] for c in CATS}}
+    total: dict = {"programs": 0, "runs": 0, "twins": 0, **{c: [] for c in CATS}}
     for sl in slices:
         cfg = make_cfg(constants=dict(Slice=f'"{sl}"', MaxOverlays=max_overlays.get(sl, 1), EmitCases=True), invariants=INVS)
         res = run_tlc(ctx.scratch, "MC_Layout", cfg, tag=f"MC_Layout_{sl}", timeout_s=3000, heap_gb=12)
@@ -501,6 +579,7 @@ def run_slices(ctx: Ctx, slices, max_overlays: dict) -> dict:
         for o in pmap(_worker, items, chunk=1):
             total["programs"] += o["programs"]
             total["runs"] += o["runs"]
+            total["twins"] += o["twins"]
             machinery += o["machinery"]
             for c in CATS:
                 total[c] += o[c]
@@ -514,6 +593,7 @@ def run_slices(ctx: Ctx, slices, max_overlays: dict) -> dict:
     ctx.evaluations += total["runs"]
     ctx.nontrivial_n += total["programs"]
     ctx.extra["programs"] = total["programs"]
+    ctx.extra["twin_location_programs"] = total["twins"]
     return total
 
 
